@@ -379,6 +379,11 @@ func (rt *runtime) convertCallParameter(v Value, t reflect.Type) (reflect.Value,
 				}
 				return gso.value, nil
 			}
+
+			// A bridged *T handed to a parameter of type T: pass the struct it points to.
+			if gso.value.Kind() == reflect.Ptr && !gso.value.IsNil() && gso.value.Type().Elem().AssignableTo(t) {
+				return gso.value.Elem(), nil
+			}
 		}
 
 		if gao, ok := v.object().value.(*goArrayObject); ok {
